@@ -23,8 +23,8 @@ typedef struct HState {
 	char failmsg[300];
 } HState;
 
-#define NSTART 6
-static const char *start_name[NSTART] = { "empty", "1x1", "testsuite3x2", "ranged2x2", "degenerate3x3", "infeasible2x2" };
+#define NSTART 7
+static const char *start_name[NSTART] = { "empty", "1x1", "testsuite3x2", "ranged2x2", "degenerate3x3", "infeasible2x2", "singleton3x3" };
 
 static void Q (mpq_t q, const char *s) { q_set_str (q, s); }
 static void m_col (RefLP * M, const char *obj, const char *lo, const char *up, const char *name)
@@ -66,11 +66,18 @@ static RefLP *make_start (int s)
 		const char *r1[] = { "1", "1", "0" }, *r2[] = { "0", "1", "1" }, *r3[] = { "1", "1", "1" };
 		m_row (M, 'L', "1", NULL, "c1", r1); m_row (M, 'L', "1", NULL, "c2", r2); m_row (M, 'L', "1", NULL, "c3", r3); return M;
 	}
-	default: {
+	case 5: {
 		M = ref_new (REF_MIN);
 		m_col (M, "1", "0", NULL, "x"); m_col (M, "0", "0", NULL, "y");
 		const char *r1[] = { "1", "1" };
 		m_row (M, 'L', "1", NULL, "c1", r1); m_row (M, 'G', "2", NULL, "c2", r1); return M;
+	}
+	default: {
+		/* a column whose only entry sits in the last row, stored right after a column that does not touch that row */
+		M = ref_new (REF_MAX);
+		m_col (M, "1", "0", NULL, "x"); m_col (M, "1", "0", NULL, "y"); m_col (M, "1", "0", NULL, "z");
+		const char *r1[] = { "1", "1", "0" }, *r2[] = { "1", "-1", "0" }, *r3[] = { "0", "0", "1" };
+		m_row (M, 'L', "4", NULL, "c1", r1); m_row (M, 'L', "1", NULL, "c2", r2); m_row (M, 'L', "3", NULL, "c3", r3); return M;
 	}
 	}
 }
